@@ -372,7 +372,9 @@ static void chk_fir(int type, int n, double w1, double w2, int wk, vh::Rng& rng,
     // textbook design only if win[centre] = 1, as for every library window), so no invariance is demanded there.
     if (wk_scaled(wk) && ((nn - 1) % 2 == 0)) out.stat("fir_scaled_window_even_prototype_cases");
     const double wproto_sc = wk_scaled(wk) ? wk_scale(wk) * (type == LOW ? w1 : type == HIGH ? 1 - w1 : (w2 - w1) / 2) : 1;
-    if (wk_scaled(wk) && ((nn - 1) % 2 == 1) && wproto_sc > 1e-290) {   // (below that the raw taps are denormal: no precision left to compare)
+    const double wproto_un = (type == LOW ? w1 : type == HIGH ? 1 - w1 : (w2 - w1) / 2);
+    // (raw taps of EITHER design — the scaled-window one or the unscaled reference — in the denormal range: no precision left to compare)
+    if (wk_scaled(wk) && ((nn - 1) % 2 == 1) && wproto_sc > 1e-290 && wproto_un > 1e-290) {
         arr_real ref = window::hamming(nn), h0;
         const bool ok0 = call_fir(type, n, w1, w2, &ref, h0);
         double d = 0;
